@@ -21,6 +21,7 @@ package grpcgcp
 import (
 	"context"
 	"fmt"
+	"math"
 	"reflect"
 	"strings"
 	"sync"
@@ -130,8 +131,12 @@ func (p *gcpPicker) Pick(info balancer.PickInfo) (balancer.PickResult, error) {
 // by 2^(refresh count since last response) as a time.Duration. This provides
 // exponential backoff when RPCs keep deadline exceeded after consecutive reconnections.
 func (p *gcpPicker) unresponsiveWindow(scRef *subConnRef) time.Duration {
-	factor := uint32(1 << scRef.refreshCnt)
-	return time.Millisecond * time.Duration(factor*p.gb.cfg.GetChannelPool().GetUnresponsiveDetectionMs())
+	// Doubling a time.Duration (instead of multiplying uint32 values) avoids wrapping around 2^32 ms.
+	window := time.Millisecond * time.Duration(p.gb.cfg.GetChannelPool().GetUnresponsiveDetectionMs())
+	for i := uint32(0); i < scRef.refreshCnt && window < math.MaxInt64/2; i++ {
+		window *= 2
+	}
+	return window
 }
 
 func (p *gcpPicker) detectUnresponsive(ctx context.Context, scRef *subConnRef, callStarted time.Time, rpcErr error) {
